@@ -200,6 +200,8 @@ def compare_with_serial(ctx, base, base_stats, r, inp, prop="C06"):
 
 def sim_one(ctx, batch, argv, inputs, names, cores, bufsize, nchunks, chooser, fine, base, base_stats, tags=()):
     r = fakemp.run_sim(argv, inputs, cores, chooser, fine=fine)
+    if r.pruned:       # systematic exploration: equivalent to a schedule explored before
+        return r, None
     inp = repro(argv, inputs, cores, bufsize, r, fine)
     if r.deadlock is not None:
         ctx.failures.append(Failure("C06/deadlock", "no process can move and the main process has not finished", inp, r.deadlock, None))
@@ -277,7 +279,7 @@ def dfs_input(nchunks):
     """9 (or 6) fixed reads of equal record size, buffer size for exactly `nchunks` chunks"""
     import random
     rng = random.Random(11)
-    per = 3
+    per = 3 if nchunks > 1 else 1
     recs = []
     for i in range(per * nchunks):
         s = pipe.rs(rng, 30)
@@ -287,7 +289,7 @@ def dfs_input(nchunks):
     text = clirun.fastq(recs)
     reclen = len(text) // len(recs)
     inputs = {"in.fastq": text}
-    for buf in range(reclen + 1, len(text) + reclen, 4):
+    for buf in list(range(reclen + 1, len(text) + reclen, 4)) + [2 * len(text), 4 * len(text) + 64]:
         n, rf, _ = T.count_chunks(inputs, ["in.fastq"], buf)
         if n == nchunks and not rf:
             return inputs, buf
@@ -306,7 +308,11 @@ def systematic(ctx, workers, nchunks, budget_s, fine):
         return sim_one(ctx, batch, argv, inputs, ["in.fastq"], workers, buf, nchunks, ch, fine, base, base_stats, (tag,))
 
     n = 0
+    pruned = 0
     for ch, (r, ev) in fakemp.dfs(one, budget_s=budget_s):
+        if r.pruned:
+            pruned += 1
+            continue
         n += 1
         if getattr(r, "por_violations", None):
             ctx.notes.append(f"partial-order reduction assumption violated: {r.por_violations[:2]}")
@@ -319,7 +325,7 @@ def systematic(ctx, workers, nchunks, budget_s, fine):
     ctx.distribution[tag + ":schedules"] = n
     ctx.distribution[tag + ":distinct-traces"] = len(distinct)
     ctx.notes.append(f"systematic exploration {workers} workers x {nchunks} chunks ({GRAN_TEXT[fine]}): "
-                     f"{n} schedules, {len(distinct)} distinct model traces, "
+                     f"{n} complete schedules ({pruned} abandoned as equivalent), {len(distinct)} distinct model traces, "
                      f"{'tree exhausted' if st['exhausted'] else 'time budget ' + str(budget_s) + ' s reached'}"
                      + (f", {st['mismatch']} replay mismatches" if st["mismatch"] else ""))
     return n, len(distinct), st["exhausted"]
